@@ -41,8 +41,24 @@ func ReadBasicTypeLE[T BasicType](buf *bytes.Buffer) (T, error) {
 	return v, err
 }
 
+// ErrLengthOverflow is returned when a text or list is longer than its wire length prefix can represent.
+var ErrLengthOverflow = errors.New("length does not fit its prefix type")
+
+// lengthPrefix converts a length to its prefix type, refusing lengths the prefix cannot represent.
+func lengthPrefix[T constraints.Unsigned](length int) (T, error) {
+	t := T(length)
+	if uint64(t) != uint64(length) {
+		return 0, ErrLengthOverflow
+	}
+	return t, nil
+}
+
 func WriteBasicTypeList[T constraints.Unsigned, K BasicType](buf *bytes.Buffer, values []K) error {
-	if err := binary.Write(buf, binary.BigEndian, T(len(values))); err != nil {
+	n, err := lengthPrefix[T](len(values))
+	if err != nil {
+		return err
+	}
+	if err := binary.Write(buf, binary.BigEndian, n); err != nil {
 		return err
 	}
 	for _, s := range values {
@@ -54,7 +70,11 @@ func WriteBasicTypeList[T constraints.Unsigned, K BasicType](buf *bytes.Buffer, 
 }
 
 func WriteBasicTypeListLE[T constraints.Unsigned, K BasicType](buf *bytes.Buffer, values []K) error {
-	if err := binary.Write(buf, binary.LittleEndian, T(len(values))); err != nil {
+	n, err := lengthPrefix[T](len(values))
+	if err != nil {
+		return err
+	}
+	if err := binary.Write(buf, binary.LittleEndian, n); err != nil {
 		return err
 	}
 	for _, s := range values {
@@ -109,7 +129,11 @@ func ReadBasicTypeListLE[T constraints.Unsigned, K BasicType](buf *bytes.Buffer)
 // ----------------------------
 
 func WriteString[T constraints.Unsigned](buf *bytes.Buffer, s string) error {
-	if err := binary.Write(buf, binary.BigEndian, T(len(s))); err != nil {
+	n, err := lengthPrefix[T](len(s))
+	if err != nil {
+		return err
+	}
+	if err := binary.Write(buf, binary.BigEndian, n); err != nil {
 		return err
 	}
 	if _, err := buf.WriteString(s); err != nil {
@@ -119,7 +143,11 @@ func WriteString[T constraints.Unsigned](buf *bytes.Buffer, s string) error {
 }
 
 func WriteStringLE[T constraints.Unsigned](buf *bytes.Buffer, s string) error {
-	if err := binary.Write(buf, binary.LittleEndian, T(len(s))); err != nil {
+	n, err := lengthPrefix[T](len(s))
+	if err != nil {
+		return err
+	}
+	if err := binary.Write(buf, binary.LittleEndian, n); err != nil {
 		return err
 	}
 	if _, err := buf.WriteString(s); err != nil {
@@ -199,7 +227,11 @@ func WriteFixedStringList[T constraints.Unsigned](buf *bytes.Buffer, values []st
 }
 
 func WriteFixedStringListWithPadding[T constraints.Unsigned](buf *bytes.Buffer, values []string, fixedLen int, padChar rune, padLeft bool) error {
-	if err := binary.Write(buf, binary.BigEndian, T(len(values))); err != nil {
+	n, err := lengthPrefix[T](len(values))
+	if err != nil {
+		return err
+	}
+	if err := binary.Write(buf, binary.BigEndian, n); err != nil {
 		return err
 	}
 
@@ -217,7 +249,11 @@ func WriteFixedStringListLE[T constraints.Unsigned](buf *bytes.Buffer, values []
 	return WriteFixedStringListWithPaddingLE[T](buf, values, fixedLen, ' ', false)
 }
 func WriteFixedStringListWithPaddingLE[T constraints.Unsigned](buf *bytes.Buffer, values []string, fixedLen int, padChar rune, padLeft bool) error {
-	if err := binary.Write(buf, binary.LittleEndian, T(len(values))); err != nil {
+	n, err := lengthPrefix[T](len(values))
+	if err != nil {
+		return err
+	}
+	if err := binary.Write(buf, binary.LittleEndian, n); err != nil {
 		return err
 	}
 
@@ -300,13 +336,21 @@ func ReadFixedStringListTrimPaddingLE[T constraints.Unsigned](buf *bytes.Buffer,
 // K: type used for each string's length prefix (e.g., uint8, uint16, uint32)
 func WriteStringListLE[T constraints.Unsigned, K constraints.Unsigned](buf *bytes.Buffer, values []string) error {
 	// Write the list length prefix
-	if err := binary.Write(buf, binary.LittleEndian, T(len(values))); err != nil {
+	n, err := lengthPrefix[T](len(values))
+	if err != nil {
+		return err
+	}
+	if err := binary.Write(buf, binary.LittleEndian, n); err != nil {
 		return err
 	}
 
 	// Write each string with its own length prefix
 	for _, s := range values {
-		if err := binary.Write(buf, binary.LittleEndian, K(len(s))); err != nil {
+		k, err := lengthPrefix[K](len(s))
+		if err != nil {
+			return err
+		}
+		if err := binary.Write(buf, binary.LittleEndian, k); err != nil {
 			return err
 		}
 		buf.WriteString(s)
@@ -316,13 +360,21 @@ func WriteStringListLE[T constraints.Unsigned, K constraints.Unsigned](buf *byte
 
 func WriteStringList[T constraints.Unsigned, K constraints.Unsigned](buf *bytes.Buffer, values []string) error {
 	// Write the list length prefix
-	if err := binary.Write(buf, binary.BigEndian, T(len(values))); err != nil {
+	n, err := lengthPrefix[T](len(values))
+	if err != nil {
+		return err
+	}
+	if err := binary.Write(buf, binary.BigEndian, n); err != nil {
 		return err
 	}
 
 	// Write each string with its own length prefix
 	for _, s := range values {
-		if err := binary.Write(buf, binary.BigEndian, K(len(s))); err != nil {
+		k, err := lengthPrefix[K](len(s))
+		if err != nil {
+			return err
+		}
+		if err := binary.Write(buf, binary.BigEndian, k); err != nil {
 			return err
 		}
 		buf.WriteString(s)
@@ -394,7 +446,11 @@ func ReadStringList[T constraints.Unsigned, K constraints.Unsigned](buf *bytes.B
 // Object
 func WriteObjectList[T constraints.Unsigned, K BinaryCodec](buf *bytes.Buffer, values []K) error {
 	// Write the list length prefix
-	if err := binary.Write(buf, binary.BigEndian, T(len(values))); err != nil {
+	n, err := lengthPrefix[T](len(values))
+	if err != nil {
+		return err
+	}
+	if err := binary.Write(buf, binary.BigEndian, n); err != nil {
 		return err
 	}
 
@@ -428,7 +484,11 @@ func ReadObjectList[T constraints.Unsigned, K BinaryCodec](buf *bytes.Buffer, ne
 // Object
 func WriteObjectListLE[T constraints.Unsigned, K BinaryCodec](buf *bytes.Buffer, values []K) error {
 	// Write the list length prefix
-	if err := binary.Write(buf, binary.LittleEndian, T(len(values))); err != nil {
+	n, err := lengthPrefix[T](len(values))
+	if err != nil {
+		return err
+	}
+	if err := binary.Write(buf, binary.LittleEndian, n); err != nil {
 		return err
 	}
 
